@@ -39,6 +39,8 @@ Check ==
             THEN /\ Assert(r.ok, "permutation refused")
                  /\ Assert(WellFormed(r.table), <<"not well-formed", n, p>>)
                  /\ Assert(Permute(r.table, InversePerm(p)) = T, <<"inverse does not restore", n, p>>)
+                 /\ Assert(ScatterIsBijection(T, p), <<"relocation loop writes a position twice", n, p>>)
+                 /\ Assert(PermuteScatterCoef(T, p) = r.table.coef, <<"relocation loop of the code differs from the definition", n, p>>)
                  /\ (n <= EvalDims =>
                         \A x \in Points(T) :
                             Assert(EvalTable(r.table, [i \in 1 .. n |-> x[p[i] + 1]]) = EvalTable(T, x), <<"function changed", n, p, x>>))
